@@ -7,8 +7,8 @@
    not yet covered by a theorem are decided by the implementation <-> specification <->
    hardware differential run only (listed as unproved_forms in the evidence). *)
 From Coq Require Import ZArith Bool List.
-From AxV Require Import Bits Outcome Codes Iced State Rt Mem Trace Exec ExecP FrameTac FrameP ISA CodeSem IsaP.
-From AxG Require Import Flags Regs Operand Helpers Dispatch Frame.
+From AxV Require Import Bits Outcome Codes Iced State Rt Mem Trace Exec ExecP FrameTac FrameP RegFile RegsP ISA CodeSem IsaP OperandP MovP.
+From AxG Require Import Flags Regs Operand Helpers Dispatch Frame I_lea I_mov.
 Local Open Scope Z_scope.
 
 (* apart from registers, flags, memory contents, FS/GS, the trace and the call stack,
@@ -26,3 +26,39 @@ Theorem C01_pinned_form_count : length pinned_forms = 313%nat.
 Proof. vm_compute. reflexivity. Qed.
 
 Print Assumptions C01_nothing_else_changes.
+
+(* ---- full refinements against the ISA specification (proved over the regenerated Gallina) ----
+   For these forms the emulator's step IS the specification's: same final state, same fault
+   behaviour.  [wf_mem_instr] / the operand-kind hypotheses state what the decoder delivers. *)
+
+(* LEA r64, m *)
+Theorem C01_lea_r64 : forall c i s,
+  i_code i = C_Lea_r64_m -> wf_regs s -> wf_mem_instr i ->
+  i_op_count i = 2 -> i_op_kind i 0 = OK_Register -> i_op_kind i 1 = OK_Memory ->
+  is_gpr64 (i_op_register i 0) = true ->
+  exists s', instr_lea_r64_m c i s = (Ok tt, s') /\ isa_exec (SLea 64) i s = IDone s' 0.
+Proof. exact lea64_refines. Qed.
+
+(* MOV r/m64, r64 with a register destination *)
+Theorem C01_mov_r64_r64 : forall c i s,
+  i_code i = C_Mov_rm64_r64 -> wf_regs s ->
+  i_op_count i = 2 -> i_op_kind i 0 = OK_Register -> i_op_kind i 1 = OK_Register ->
+  is_gpr64 (i_op_register i 0) = true -> is_gpr64 (i_op_register i 1) = true ->
+  exists s', instr_mov_rm64_r64 c i s = (Ok tt, s') /\ isa_exec (SMov 64) i s = IDone s' 0.
+Proof. exact mov_rm64_r64_reg_refines. Qed.
+
+(* MOV r64, [m]: the loaded value, or a failing step that changes nothing exactly when the
+   specification's load faults (this is also an instance of C06) *)
+Theorem C01_mov_r64_m64 : forall c i s,
+  i_code i = C_Mov_r64_rm64 -> wf_regs s -> wf_mem_instr i ->
+  i_op_count i = 2 -> i_op_kind i 0 = OK_Register -> i_op_kind i 1 = OK_Memory ->
+  is_gpr64 (i_op_register i 0) = true ->
+  match isa_exec (SMov 64) i s with
+  | IDone s1 u => instr_mov_r64_rm64 c i s = (Ok tt, s1) /\ u = 0
+  | IFault _ => exists r, instr_mov_r64_rm64 c i s = (r, s) /\ forall x, r <> Ok x
+  end.
+Proof. exact mov_r64_m64_refines. Qed.
+
+Print Assumptions C01_lea_r64.
+Print Assumptions C01_mov_r64_r64.
+Print Assumptions C01_mov_r64_m64.
